@@ -7,9 +7,20 @@ EXTENDS Frames, TraceBase
 Blank == [proto |-> "connect", side |-> "client", shape |-> "stream", raw |-> FALSE, reuse |-> FALSE, limit |-> 0,
           enc |-> "none", frames |-> <<>>, cut |-> 0, tail |-> "eof", trailers |-> "none"]
 
-TraceInit == /\ l = 1 /\ failed = FALSE /\ InitWith(Blank)
+\* C03 is relational: two executions over the same scenario (same bytes, cut and tail) that differ only in how
+\* the transport segmented them must end alike.  `last` remembers the previous trace's scenario and outcome
+\* (the runner records the segmentations of one scenario next to each other).
+VARIABLE last
+NoLast == [sc |-> Blank, ok |-> TRUE, code |-> 0, out |-> <<>>]
+SameAsLast == last.sc = sc /\ "dontcare" \notin Expect(sc).res =>
+                Cur.ok = last.ok /\ Cur.code = last.code /\ Cur.out = last.out
+\* C09: one message may not make the receiver allocate much more than the limit
+Bounded == ("bomb" \in DOMAIN sc /\ sc.bomb /\ sc.limit > 0) => Cur.alloc_kb <= (sc.limit \div 128) + 8192
+Remember == last' = [sc |-> sc, ok |-> Cur.ok, code |-> Cur.code, out |-> Cur.out]
 
-TReset == /\ Ev("reset") /\ ResetTo(Cur.sc) /\ Consume /\ failed' = FALSE
+TraceInit == /\ l = 1 /\ failed = FALSE /\ InitWith(Blank) /\ last = NoLast
+
+TReset == /\ Ev("reset") /\ ResetTo(Cur.sc) /\ Consume /\ failed' = FALSE /\ UNCHANGED last
 
 \* the transport handed over k bytes, possibly together with the end signal
 TReadEv == /\ Ev("read")
@@ -17,10 +28,10 @@ TReadEv == /\ Ev("read")
            /\ delivered' = delivered + Cur.k
            /\ IF Cur.e = "no" THEN /\ Cur.k >= 1 /\ eof' = "no"
               ELSE /\ delivered' = Avail(sc) /\ Cur.e = sc.tail /\ eof' = Cur.e
-           /\ UNCHANGED <<sc, fi, out, res, hold>>
+           /\ UNCHANGED <<sc, fi, out, res, hold, last>>
 
 \* the API yielded a message: the reader's RMsg step, and the id must be the model's
-TRecv == /\ Ev("recv") /\ sc.shape = "stream" /\ RMsg /\ hold' = Cur.id
+TRecv == /\ Ev("recv") /\ sc.shape = "stream" /\ RMsg /\ hold' = Cur.id /\ UNCHANGED last
 
 Match(ok, code, c) == IF ok THEN 0 \in CodesOf(sc, c) ELSE code \in (CodesOf(sc, c) \ {0})
 
@@ -30,6 +41,7 @@ TDoneStream ==
   /\ (RLimit \/ RStop \/ REnd \/ RRaw)
   /\ Match(Cur.ok, Cur.code, res')
   /\ (res' # "dontcare" => out' = Cur.out)
+  /\ SameAsLast /\ Remember /\ Bounded
 
 \* unary-shaped APIs are judged against the whole-wire oracle
 ClientUnaryOK(e) == \E c \in e.res : UnaryOK(e.out, c)
@@ -50,13 +62,14 @@ TDoneUnary ==
           ELSE /\ ~Cur.ok /\ Cur.out = <<>>
                /\ \E c \in e.res : Cur.code \in (IF c = "end" THEN 1..16 ELSE CodesOf(sc, c))
   /\ res' = "judged" /\ UNCHANGED <<sc, delivered, eof, fi, out, hold>>
+  /\ SameAsLast /\ Remember /\ Bounded
 
 Normal == (TReset \/ ((TReadEv \/ TRecv \/ TDoneStream \/ TDoneUnary) /\ Consume /\ UNCHANGED failed))
 TraceNext == \/ (~failed /\ Normal)
-             \/ (~failed /\ ~ENABLED Normal /\ Reject /\ UNCHANGED vars)
-             \/ (SkipRest /\ UNCHANGED vars)
+             \/ (~failed /\ ~ENABLED Normal /\ Reject /\ UNCHANGED <<vars, last>>)
+             \/ (SkipRest /\ UNCHANGED <<vars, last>>)
              \/ (failed /\ TReset)
-TraceSpec == TraceInit /\ [][TraceNext]_<<vars, l, failed>>
+TraceSpec == TraceInit /\ [][TraceNext]_<<vars, l, failed, last>>
 NoScenarios == {}
 NoBug == FALSE
 =============================================================================
